@@ -628,3 +628,125 @@ func sortedKeys[V any](m map[string]V) []string {
 	sort.Strings(ks)
 	return ks
 }
+
+// ---------------------------------------------------------------- quantifier normalisation
+//
+// A quantified contract such as  forall j :: 0 <= j < len(s) ==> P(s[j])  reads the
+// backing array at index (off + j).  E-matching cannot instantiate that with a
+// ground term (off' + j') when off' differs syntactically, so the bound variable is
+// shifted to range over absolute indices:  j := k - off  (a bijection), after which
+// the index is just k and the trigger is select(arr, k).
+
+func containsVar(t *Term, name string) bool {
+	if t.Op == "" {
+		return t.Name == name
+	}
+	for _, q := range t.Q {
+		if q.Name == name {
+			return false
+		}
+	}
+	for _, a := range t.Args {
+		if containsVar(a, name) {
+			return true
+		}
+	}
+	return false
+}
+
+// collect offsets T of index terms (+ T j) / (+ j T) used directly as select indices
+func collectOffsets(t *Term, name string, offs *[]*Term, bare *bool) {
+	if t.Op == "select" && len(t.Args) == 2 {
+		idx := t.Args[1]
+		if idx.Op == "" && idx.Name == name {
+			*bare = true
+		} else if idx.Op == "+" && len(idx.Args) == 2 {
+			a, b := idx.Args[0], idx.Args[1]
+			if b.Op == "" && b.Name == name && !containsVar(a, name) {
+				*offs = append(*offs, a)
+			} else if a.Op == "" && a.Name == name && !containsVar(b, name) {
+				*offs = append(*offs, b)
+			}
+		}
+	}
+	for _, a := range t.Args {
+		collectOffsets(a, name, offs, bare)
+	}
+}
+
+func resimplify(t *Term) *Term {
+	if t.Op == "" {
+		return t
+	}
+	args := make([]*Term, len(t.Args))
+	changed := false
+	for i, a := range t.Args {
+		args[i] = resimplify(a)
+		if args[i] != a {
+			changed = true
+		}
+	}
+	switch {
+	case t.Op == "+" && len(args) == 2 && t.S.K == SInt:
+		return addShift(args[0], args[1])
+	case t.Op == "-" && len(args) == 2 && t.S.K == SInt:
+		return Sub(args[0], args[1])
+	}
+	if !changed {
+		return t
+	}
+	nt := *t
+	nt.Args = args
+	return &nt
+}
+
+// a + b with cancellation of (x - a) patterns
+func addShift(a, b *Term) *Term {
+	if b.Op == "-" && len(b.Args) == 2 && termEq(b.Args[1], a) {
+		return b.Args[0]
+	}
+	if a.Op == "-" && len(a.Args) == 2 && termEq(a.Args[1], b) {
+		return a.Args[0]
+	}
+	// literal offsets: (c + (k + (-c)))
+	if a.Op == "" && a.I != nil && !(b.Op == "" && b.I != nil) {
+		a, b = b, a
+	}
+	return Add(a, b)
+}
+
+func shiftQuantVars(bs []Bound, body *Term) *Term {
+	for _, bd := range bs {
+		if bd.S.K != SInt {
+			continue
+		}
+		var offs []*Term
+		bare := false
+		collectOffsets(body, bd.Name, &offs, &bare)
+		if bare || len(offs) == 0 {
+			continue
+		}
+		same := true
+		for _, o := range offs[1:] {
+			if !termEq(o, offs[0]) {
+				same = false
+			}
+		}
+		if !same || isZero(offs[0]) {
+			continue
+		}
+		// offsets must not mention other bound variables of this quantifier
+		clean := true
+		for _, b2 := range bs {
+			if containsVar(offs[0], b2.Name) {
+				clean = false
+			}
+		}
+		if !clean {
+			continue
+		}
+		v := Var(bd.Name, IntS)
+		body = resimplify(body.Subst(map[string]*Term{bd.Name: App("-", IntS, v, offs[0])}))
+	}
+	return body
+}
